@@ -635,6 +635,10 @@ class DAGRunConcurrentManager(DAGRunManagerLike):
             # that contains the switch) must fail instead of waiting for the switch forever.
             error = SwitchCaseDoesNotHaveBranchError(node_id, *ex.args)
 
+            if ex.args and isinstance(ex.args[0], BaseException):
+                # The switch node itself has failed (inside a OneOf subgraph its error is stored as its result)
+                error = ex.args[0]
+
             if dag.is_oneof:
                 self._node_storage.set_node_result(node_id, error)
                 await self.__unlock_descendants(node_id)
